@@ -15,7 +15,7 @@ ASSUME_COMMON = [
 PROPS = {}
 
 PROPS["C16"] = dict(
-    units=[dict(name="c16-mpi-shim", src="props/c04.cpp", deps=["lib/shim/mpi.h"], flags=["-DVERIF_T=double", "-DVERIF_AS=16", "-I", "/verif/lib/shim", "-pthread"], libs=["-ldl", "-pthread"], quick=dict(shards=2, cases=250), thorough=dict(shards=4, cases=8000)),
+    units=[dict(name="c16-mpi-shim", src="props/c04.cpp", deps=["lib/shim/mpi.h"], flags=["-DVERIF_T=double", "-DVERIF_AS=16", "-I", "@HERE@/lib/shim", "-pthread"], libs=["-ldl", "-pthread"], quick=dict(shards=2, cases=250), thorough=dict(shards=4, cases=8000)),
            dict(name="c16", src="props/c16.cpp", enum=True)],
     rule="case = (total, world) checked for every rank (world <= 2048) or 8 structural + 24 sampled ranks "
          "against a 128-bit integer tiling model; non-trivial: world >= 2 and total mod world != 0; "
@@ -84,7 +84,7 @@ PROPS["C13"] = dict(
 )
 
 PROPS["C08"] = dict(
-    units=[dict(name="c08-mpi-shim", src="props/c04.cpp", deps=["lib/shim/mpi.h"], flags=["-DVERIF_T=double", "-DVERIF_AS=8", "-I", "/verif/lib/shim", "-pthread"], libs=["-ldl", "-pthread"], quick=dict(shards=2, cases=250), thorough=dict(shards=4, cases=8000)),
+    units=[dict(name="c08-mpi-shim", src="props/c04.cpp", deps=["lib/shim/mpi.h"], flags=["-DVERIF_T=double", "-DVERIF_AS=8", "-I", "@HERE@/lib/shim", "-pthread"], libs=["-ldl", "-pthread"], quick=dict(shards=2, cases=250), thorough=dict(shards=4, cases=8000)),
            dict(name="c08", src="props/c08.cpp", deps=["lib/pwc.hpp"], fuzz=dict(seconds=60))],
     rule="3/4 of the cases: chain of 1..30 multi_channel_refine_weights calls (1..40 channels, generated weights incl. "
          "zeros and unnormalised, data all-zero / single / equal / uniform / over +-15 (float) or +-100 decades, beta in "
@@ -329,7 +329,7 @@ PROPS["C10"] = dict(
 )
 
 PROPS["C12"] = dict(
-    units=[dict(name="c12-mpi-shim", src="props/c04.cpp", deps=["lib/shim/mpi.h"], flags=["-DVERIF_T=double", "-DVERIF_AS=12", "-I", "/verif/lib/shim", "-pthread"], libs=["-ldl", "-pthread"], quick=dict(shards=2, cases=250), thorough=dict(shards=4, cases=8000)),
+    units=[dict(name="c12-mpi-shim", src="props/c04.cpp", deps=["lib/shim/mpi.h"], flags=["-DVERIF_T=double", "-DVERIF_AS=12", "-I", "@HERE@/lib/shim", "-pthread"], libs=["-ldl", "-pthread"], quick=dict(shards=2, cases=250), thorough=dict(shards=4, cases=8000)),
            dict(name="c12", src="props/c12.cpp", deps=["lib/runners.hpp", "lib/pwc.hpp"])],
     rule="case = numeric type x integrator (generated configuration as in C03, mt19937) x iteration list of 0..8 entries "
          "(calls 0..2 or 4..304) x one of three layers: (i) logging callback returning false at invocation 1..n+1 or never, "
@@ -379,7 +379,7 @@ PROPS["C17"] = dict(
 )
 
 PROPS["C19"] = dict(
-    units=[dict(name="c19-mpi-shim", src="props/c04.cpp", deps=["lib/shim/mpi.h"], flags=["-DVERIF_T=double", "-DVERIF_AS=19", "-I", "/verif/lib/shim", "-pthread"], libs=["-ldl", "-pthread"], quick=dict(shards=2, cases=250), thorough=dict(shards=4, cases=8000)),
+    units=[dict(name="c19-mpi-shim", src="props/c04.cpp", deps=["lib/shim/mpi.h"], flags=["-DVERIF_T=double", "-DVERIF_AS=19", "-I", "@HERE@/lib/shim", "-pthread"], libs=["-ldl", "-pthread"], quick=dict(shards=2, cases=250), thorough=dict(shards=4, cases=8000)),
            dict(name="c19", src="props/c19.cpp", deps=["lib/pwc.hpp"])],
     rule="case = numeric type x VEGAS (1-3 dims, 2-25 bins, alpha from {1.5, 0, 0.5, 3, random}, default or user grid) or "
          "multi-channel (1-6 PWC channels, beta, minimum weight, default or user weights incl. zeros / unnormalised) x 1..6 "
@@ -404,7 +404,7 @@ PROPS["C19"] = dict(
 )
 
 PROPS["C20"] = dict(
-    units=[dict(name="c20-mpi-shim", src="props/c04.cpp", deps=["lib/shim/mpi.h"], flags=["-DVERIF_T=float", "-DVERIF_AS=20", "-I", "/verif/lib/shim", "-pthread"], libs=["-ldl", "-pthread"], quick=dict(shards=2, cases=250), thorough=dict(shards=4, cases=8000)),
+    units=[dict(name="c20-mpi-shim", src="props/c04.cpp", deps=["lib/shim/mpi.h"], flags=["-DVERIF_T=float", "-DVERIF_AS=20", "-I", "@HERE@/lib/shim", "-pthread"], libs=["-ldl", "-pthread"], quick=dict(shards=2, cases=250), thorough=dict(shards=4, cases=8000)),
            dict(name="c20", src="props/c20.cpp", deps=["lib/runners.hpp", "lib/pwc.hpp"], fuzz=dict(seconds=60))],
     rule="2/3 of the cases: one generated run (PLAIN / VEGAS / multi-channel with 1..40 PWC channels; weight pattern equal / "
          "one large / increasing / ties / disabled / two minimal and many distinct / generated; integrand ordinary, "
@@ -480,12 +480,13 @@ PROPS["C18"] = dict(
     assumptions=ASSUME_COMMON + ["built without sanitizers: their interceptors would shadow the interposed symbols"],
 )
 
-_SHIM = ["-I", "/verif/lib/shim", "-pthread"]
+_SHIM = ["-I", "@HERE@/lib/shim", "-pthread"]
 PROPS["C04"] = dict(
     units=[dict(name="c04-float", src="props/c04.cpp", flags=["-DVERIF_T=float"] + _SHIM, libs=["-ldl", "-pthread"]),
            dict(name="c04-double", src="props/c04.cpp", flags=["-DVERIF_T=double"] + _SHIM, libs=["-ldl", "-pthread"]),
            dict(name="c04-ldouble", src="props/c04.cpp", flags=["-DVERIF_T=long double"] + _SHIM, libs=["-ldl", "-pthread"])],
     engine="mpi-shim",
+    aux=[dict(script="tools/mpi_crosscheck.py", tier="both")],
     rule="case = world size P (1..33) x generated schedule (arrival order of the ranks per scheduling round, reduction "
          "order per collective as a permutation folded left-to-right or pairwise as a tree) x integrator (generated "
          "configuration: distributions, user grids / weights incl. disabled channels) x 1..4 iterations with calls from {0, "
@@ -508,7 +509,9 @@ PROPS["C04"] = dict(
                "world sizes, schedules and configurations",
     level_note="trusted: the in-process shim (lib/shim/mpi.h, 250 lines: ranks are threads run one at a time in a generated "
                "order; MPI_Allreduce folds in a generated order); real network schedules are not explored - the shim owns "
-               "arrival and reduction order; 'no rank hangs' is decided in its safety form (identical collective sequences)",
+               "arrival and reduction order; every run also executes tools/mpi_crosscheck.py: a fixed set of 45 "
+               "configurations under real mpirun -np 1,2,3,4,7 and under the shim must produce identical per-rank point "
+               "logs and call counts (skipped as inconclusive if mpirun cannot start); 'no rank hangs' is decided in its safety form (identical collective sequences)",
     technique="rapidcheck over choice tapes on an in-process MPI shim with generated schedules; differential against the serial integrator from the recorded state",
     assumptions=ASSUME_COMMON + ["MPI semantics assumed of the shim: MPI_Allreduce(MPI_IN_PLACE, MPI_SUM) delivers the same "
                                  "value to all ranks, reduction order unspecified"],
